@@ -76,9 +76,21 @@ func serve() {
 	if p := os.Getenv("VERIF_HOOKLOG"); p != "" {
 		hlog, _ = os.OpenFile(p, os.O_CREATE|os.O_WRONLY|os.O_APPEND, 0600)
 	}
+	// a forced schedule by delay: "point:k:ms" makes the k-th arrival at point wait ms (the goroutine that gets there is
+	// overtaken by whatever comes after it)
+	delayAt, delayK, delayMs := "", int32(0), 0
+	if f := strings.Split(os.Getenv("VERIF_DELAY"), ":"); len(f) == 3 {
+		delayAt = f[0]
+		fmt.Sscan(f[1], &delayK)
+		fmt.Sscan(f[2], &delayMs)
+	}
+	var dcnt atomic.Int32
 	verifhook.Set(func(point string, args ...any) {
 		if at != "" && point == at && cnt.Add(1) == n {
 			os.Exit(3)
+		}
+		if delayAt != "" && point == delayAt && dcnt.Add(1) == delayK {
+			time.Sleep(time.Duration(delayMs) * time.Millisecond)
 		}
 		// C06 at the linearisation point: what the cache holds at the instant a NACK goes upstream
 		if hlog != nil && (point == "rtpconn.sendNACK" || point == "rtpconn.sendNACKs") && len(args) >= 2 {
@@ -138,6 +150,7 @@ type server struct {
 	done  chan struct{}
 	log   *bytes.Buffer
 	crash string
+	delay string
 }
 
 func freePort() int {
@@ -155,6 +168,9 @@ func (s *server) start() error {
 	s.cmd.Env = append(os.Environ(), "VERIF_SERVE=1", "VERIF_ROOT="+s.root, fmt.Sprint("VERIF_PORT=", s.port))
 	if s.crash != "" {
 		s.cmd.Env = append(s.cmd.Env, "VERIF_CRASH_AT="+s.crash)
+	}
+	if s.delay != "" {
+		s.cmd.Env = append(s.cmd.Env, "VERIF_DELAY="+s.delay)
 	}
 	os.Remove(s.root + ".hooks")
 	s.cmd.Env = append(s.cmd.Env, "VERIF_HOOKLOG="+s.root+".hooks")
@@ -1362,6 +1378,7 @@ type beh struct {
 	Steps   [][]any        `json:"steps"`
 	Crash   string         `json:"crash"`
 	Roots   bool           `json:"roots"`
+	Delay   string         `json:"delay"`
 }
 
 func num(x any) int {
@@ -1375,6 +1392,7 @@ func (d *driver) runBeh(b beh, idx int) {
 	d.srv.stop()
 	d.fixture(b.Fixture)
 	d.srv.crash = b.Crash
+	d.srv.delay = b.Delay
 	d.roots = b.Roots
 	if err := d.srv.start(); err != nil {
 		d.emit(map[string]any{"ev": "New", "name": b.Name, "idx": idx})
